@@ -83,6 +83,7 @@ def famCtx (Fam : Family) (G : MG Name) (pops : List Name) (σ' : Val) (h : FamO
   sctx := ⟨h.target, h.wf, h.rank⟩
   ign := []
   mark d v := (Fam.dom (some d)).kern v ≠ (Fam.dom none).kern v
+  dom d := d ∈ pops
 
 theorem rsub_self {G : MG Name} : RSub G G :=
   ⟨fun v hv => (mem_regularNodes.1 hv).1, fun u v _ _ h => MG.mem_parents.1 h, fun u v _ _ h => (hasBi_iff G u v).1 h⟩
@@ -114,7 +115,8 @@ theorem famCtx_initial {Fam : Family} {G : MG Name} {pops : List Name} (σ' : Va
     (Y X : List Name) (graphs : List (Pop × MG Name)) (interventions : List (Pop × List Name))
     (hsub : ∀ p ∈ graphs, RSub G p.2)
     (hmarks : ∀ p ∈ graphs, ∀ v, (Fam.dom (some p.1)).kern v ≠ (Fam.dom none).kern v → v ∈ regularNodes p.2 →
-      (tnode v, v) ∈ p.2.di) :
+      (tnode v, v) ∈ p.2.di)
+    (hdoms : ∀ p ∈ graphs, p.1 ∈ pops) :
     SemInv (famCtx Fam G pops σ' h) (initialQuery G Y X graphs interventions) G := by
   have hreg : regularNodes G = G.nodes := regularNodes_eq_of_noT hnoT
   have hokW : (famCtx Fam G pops σ' h).S.okW (some (popVar targetPop)) [] :=
@@ -147,7 +149,7 @@ theorem famCtx_initial {Fam : Family} {G : MG Name} {pops : List Name} (σ' : Va
   have hplain : ∀ v ∈ plainVars G.nodes, v.ivs = [] ∧ v.star = none ∧ v.isIv = false := jc.plain
   have hin : ∀ n ∈ vnames (plainVars G.nodes), n ∈ regularNodes G ∨ n ∈ (famCtx Fam G pops σ' h).ign := jc.within
   refine ⟨rsub_self, ⟨trivial, ?_⟩, trivial, ?_, fun _ _ => trivial, fun z hz => (by cases hz),
-    Or.inl ⟨popVar targetPop, plainVars G.nodes, rfl, jc⟩, fun _ _ => ⟨hsub, ?_, ⟨_, _, rfl⟩, hmarks⟩⟩
+    Or.inl ⟨popVar targetPop, plainVars G.nodes, rfl, jc⟩, fun _ _ => ⟨hsub, ?_, ⟨_, _, rfl⟩, hmarks, hdoms⟩⟩
   rotate_left 2
   · intro a _ r hr
     rw [hreg]
